@@ -138,9 +138,9 @@ func vReach(label string) {
 
 // vRunPending: the executor runs all spawned goroutines to completion here;
 // natively, give background goroutines time to finish.
-func vRunPending() { time.Sleep(150 * time.Millisecond) }
+func vRunPending()               { time.Sleep(150 * time.Millisecond) }
 func vSetOpt(name string, v int) {}
-func vNote(s string)           {}
+func vNote(s string)             {}
 
 // vPanics runs f and reports whether a panic escaped it.
 func vPanics(f func()) (p bool) {
@@ -174,8 +174,8 @@ type vWire struct {
 	written     []string
 	failWriteAt int // index of the Write call that fails (-1: never)
 	closed      int
-	stamp       bool  // read the model clock at every Write
-	stamps      []int // those readings (ns)
+	stamp       bool          // read the model clock at every Write
+	stamps      []int         // those readings (ns)
 	writeGate   chan struct{} // if non-nil: every Write first waits for a token (slow / bursty peer)
 	hold        chan struct{} // if non-nil: when the chunks are exhausted Read blocks until Close
 }
@@ -409,7 +409,7 @@ func vSharesStorage(a, b *Line) bool {
 // with mu write-held, while vWatchOn(true). Violations are logged as event
 // "unguarded". vLockAcquires counts Lock/RLock calls on mu.
 func vWatch(root interface{}, mu interface{}) {}
-func vWatchOn(on bool)                       {}
+func vWatchOn(on bool)                        {}
 
 // vPermuteIn: the executor explores every iteration order of map ranges inside the named function.
 func vPermuteIn(fn string) {}
@@ -427,17 +427,17 @@ func vLockHeld(mu interface{}) bool {
 }
 
 // Executor-only observers (neutral natively).
-func vPendingGo() int                   { return -1 } // goroutines spawned and not yet run
-func vDropPending()                     {}            // forget them (the harness is done with the connection)
+func vPendingGo() int                     { return -1 } // goroutines spawned and not yet run
+func vDropPending()                       {}            // forget them (the harness is done with the connection)
 func vEventStr(kind string, i int) string { return "" }
 
 // vDialer is a proxy dialer for the harness-only URL scheme "vtest": it records
 // the address it is asked to dial and hands out the in-memory wire (or fails).
 type vDialer struct {
-	addrs []string
-	wire  *vWire
-	wires []*vWire // if set: the n-th dial gets wires[n]
-	fail  bool
+	addrs  []string
+	wire   *vWire
+	wires  []*vWire // if set: the n-th dial gets wires[n]
+	fail   bool
 	onDial func() // called after a successful dial (e.g. cancels the connect context)
 }
 
@@ -473,3 +473,37 @@ func vBlockedGo() int { return -1 }
 
 // vPendingGoNamed: goroutines not yet finished whose function name contains the substring (-1 natively).
 func vPendingGoNamed(sub string) int { return -1 }
+
+// vWireBare: s contains a CR not followed by LF, or an LF not preceded by CR.
+func vWireBare(s string) bool {
+	for i := 0; i < len(s); i++ {
+		if s[i] == '\r' && !(i+1 < len(s) && s[i+1] == '\n') {
+			return true
+		}
+		if s[i] == '\n' && !(i > 0 && s[i-1] == '\r') {
+			return true
+		}
+	}
+	return false
+}
+
+// vWireTerminated: s ends in CRLF.
+func vWireTerminated(s string) bool {
+	return len(s) >= 2 && s[len(s)-2] == '\r' && s[len(s)-1] == '\n'
+}
+
+// vWireVerbs: every line of s (from the start, and after each LF) begins with verb followed by a space or CR.
+func vWireVerbs(s, verb string) bool {
+	for p := 0; p < len(s); p++ {
+		if p > 0 && s[p-1] != '\n' {
+			continue
+		}
+		if p+len(verb) >= len(s) || s[p:p+len(verb)] != verb {
+			return false
+		}
+		if nx := s[p+len(verb)]; nx != ' ' && nx != '\r' {
+			return false
+		}
+	}
+	return true
+}
